@@ -43,6 +43,21 @@ func genCase(t *rapid.T) Case {
 	n := rapid.IntRange(1, 8).Draw(t, "nsteps")
 	for i := 0; i < n; i++ {
 		c.Steps = append(c.Steps, pgprog.GenStep(t, c.Tables, next, fmt.Sprintf("s%d", i)))
+		// sometimes execute an earlier prepared SELECT again, after other statements went through
+		var prepared []int
+		for j, st := range c.Steps {
+			if st.Op == "select" && st.Ext {
+				prepared = append(prepared, j)
+			}
+		}
+		if len(prepared) > 0 && len(c.Steps) > prepared[0]+1 && rapid.IntRange(0, 3).Draw(t, fmt.Sprintf("reexec%d", i)) == 0 {
+			j := rapid.SampledFrom(prepared).Draw(t, fmt.Sprintf("reexec%d.which", i))
+			re := c.Steps[j]
+			re.Op, re.Reexec = "reexec", j+1
+			re.ResultFmt = int16(rapid.IntRange(0, 1).Draw(t, fmt.Sprintf("reexec%d.rfmt", i)))
+			re.Describe = "P"
+			c.Steps = append(c.Steps, re)
+		}
 	}
 	return c
 }
@@ -179,10 +194,18 @@ func Check(c Case) (hx.Vs, map[string]bool, bool) {
 	inconclusive := false
 	for si, st := range c.Steps {
 		tb := c.Tables[st.Table]
+		if st.Op == "reexec" {
+			st.Op = "select"
+		}
 		r := pgprog.Render(c.Tables, st)
 		var rep *pgsess.Reply
 		var err error
-		if st.Ext {
+		if st.Reexec > 0 {
+			e := pgprog.ExtOf(st, r, fmt.Sprintf("st%d", st.Reexec-1))
+			e.SkipParse, e.DescribeStmt, e.DescribePort = true, false, true
+			rep, err = s.Extended(e)
+			o.class("reexec-prepared")
+		} else if st.Ext {
 			rep, err = s.Extended(pgprog.ExtOf(st, r, fmt.Sprintf("st%d", si)))
 			o.class(fmt.Sprintf("ext/pfmt%d/rfmt%d", st.ParamFmt, st.ResultFmt))
 		} else {
